@@ -41,25 +41,31 @@ package values
 //@ schema values_int_cmp()
 
 // ---- big-endian byte helpers (used by the 128/256-bit shifts, C14, and by byte conversion, C17).
-// Assumed for now (bodies loop over the bytes); beval(s) is the unsigned big-endian value of s.
+// beval(s) is the unsigned big-endian value of s.
 // 2^(8n) and 2^(8n-1) for the byte sizes of the fixed-width big integer types (facts about the uninterpreted 2^k)
 //@ spec L_pow2_sizes(n) = (n == 16 ==> pow2n(8 * n, 520) == pow2(128) && pow2n(8 * n - 1, 520) == pow2(127)) && (n == 32 ==> pow2n(8 * n, 520) == pow2(256) && pow2n(8 * n - 1, 520) == pow2(255))
 // One instance per size in use (16: Int128, 32: Int256). The body is verified for freedom from run-time panics
-// (index and slice bounds: the minimal byte string of |x+1| fits into the buffer) and the result's length; the
-// result's value stays a trusted postcondition (beval is uninterpreted).
+// (index and slice bounds: the minimal byte string of |x+1| fits into the buffer), the result's length and the
+// result's value.
 //@ schema sized_bytes(SZ=16)
 //@ schema sized_bytes(SZ=32)
-// The body is verified for freedom from run-time panics on every input (also the empty slice) and for its frame;
-// its value (two's complement of the big-endian bytes) stays a trusted postcondition: beval is uninterpreted.
+// Verified completely for every byte string of up to 64 bytes (also the empty one): freedom from run-time panics,
+// frame, and the value - the two's complement reading of the big-endian bytes. beval of the symbolic-length slice is
+// unfolded to its defining sum (option bevalbound); the complementing loop carries quantified invariants.
 //@ func BigEndianBytesToSignedBigInt
 //@   props C14 C17
+//@   option bevalbound=64
 //@   requires len(b) <= 64
 //@   nofail
 //@   modifies mem(b)
 //@   let u = old(beval(b))
 //@   let n = len(b)
+//@   assume L_pow2_bytes(len(b))
 //@   loop 1 invariant rangeindex >= -1 && rangeindex < len(b)
-//@   trustensures fresh(result) && big(result) == ite(n == 0, 0, ite(u >= pow2n(8 * n - 1, 520), u - pow2n(8 * n, 520), u)) && L_pow2_sizes(n)
+//@   loop 1 invariant forall(k, 0, rangeindex + 1, b[k] == 255 - old(b[k]))
+//@   loop 1 invariant forall(k, rangeindex + 1, len(b), b[k] == old(b[k]))
+//@   ensures fresh(result) && big(result) == ite(n == 0, 0, ite(u >= pow2n(8 * n - 1, 520), u - pow2n(8 * n, 520), u))
+//@   ensures L_pow2_sizes(n)
 //@ schema values_int_bitop(M=BitwiseOr, F=tcor)
 //@ schema values_int_bitop(M=BitwiseXor, F=tcxor)
 //@ schema values_int_bitop(M=BitwiseAnd, F=tcand)
